@@ -136,6 +136,14 @@ class Ctx:
             self.known_seen[sig] += 1
             self.known_example.setdefault(sig, msg)
             return
+        if os.environ.get("VERIF_COLLECT"):
+            # triage mode: enumerate every reachable signature instead of stopping at the first
+            c = self.extra.setdefault("collected", {})
+            k = f"{clause}|{key}"
+            if k not in c:
+                c[k] = {"count": 0, "example": msg[:600], "case": jsonable.to_plain(case if case is not None else self._cur_case)}
+            c[k]["count"] += 1
+            return
         if sig in self._reported:
             return
         f = Failure(self._cur_check, clause, key, msg, case if case is not None else self._cur_case)
